@@ -12,6 +12,13 @@ engine `onchain` + spec OnChain.tla.
                    anchor-channel holder closes whose claims (anchor bump of the commitment, zero-fee
                    HTLC transactions) are starved for several bump intervals while the fee
                    estimators collapse (by more than 5x) and spike between the bumps
+    shapes         the cheater's second-stage transactions in every shape SIGHASH_SINGLE|ANYONECANPAY allows (model:
+                   Layout in OnChainMC.tla; engine: op `cheat`, hand-assembled from the old-state monitor's
+                   HTLCDescriptors, signed by the real second node), profile c06s
+    histories      reorganisations that unconfirm the commitment / second-stage transactions / claims and let them
+                   confirm again (model: MUnwind, MBlockBack; engine: op `unwind`), profiles c06r, c07u
+    spec mutants   an ideal monitor with a planted defect (ignores second-stage transactions whose input and output
+                   counts differ; never claims an output twice) must be refuted by TLC
     oracle         TLC validates every recorded run against OnChainTrace.tla
 """
 import json, os, random, time, copy
@@ -27,14 +34,26 @@ def convert_script(s, rng):
     revoked = s["mode"] == "revoked"
     owner = 1
     shape = s["shape"]
-    hist, pay_of = [], {}
+    hist, pay_of, kind_of = [], {}, {}
     for h in shape:
+        if h["hash"] in pay_of:
+            continue
         frm = owner if h["k"] == "offered" else 1 - owner
         pay_of[h["hash"]] = len(pay_of)
-        hist.append({"op": "pay", "from": frm, "amt": rng.choice(["big", "big", "small"])})
+        kind_of[h["hash"]] = h["k"]
+        op = {"op": "pay", "from": frm, "amt": rng.choice(["big", "big", "small"])}
+        # several HTLCs with one payment hash: the parts of one multi-part payment over the channel
+        parts = sum(1 for x in shape if x["hash"] == h["hash"])
+        if parts > 1:
+            op.update({"parts": parts, "vary": rng.random() < 0.5, "stagger": rng.choice([0, 0, 3])})
+        hist.append(op)
+    claimed = set()
     for h in shape:
-        if h["k"] == "received" and h["pk"]:
+        if h["k"] == "received" and h["pk"] and h["hash"] not in claimed:
+            claimed.add(h["hash"])
             hist.append({"op": "claim", "pay": pay_of[h["hash"]], "deliver": False})
+    # hand-made second-stage transactions (shapes other than one output per input) need an anchor channel
+    manual = revoked and any(o["op"] == "block" and o.get("layout", "plain") != "plain" for o in s["ops"])
     chain = []
     if revoked:
         hist += [{"op": "mark", "owner": owner}, {"op": "deliver_all"},
@@ -48,19 +67,53 @@ def convert_script(s, rng):
                  else {"kind": "counterparty", "owner": owner, "which": "current"})
         chain.append({"op": "mine", "who": [owner, 3], "prefer": "old"})
         base = [3]
+    cheated, depth = [], 0
     for o in s["ops"]:
         if o["op"] == "block":
             who = sorted(set(o["who"]) | set(base))
             pays = [pay_of[h] for h in o["cheat"] if h in pay_of]
+            depth += 1
             if not revoked:
                 chain.append({"op": "mine", "who": who, "prefer": rng.choice(["new", "old"])})
             elif o["cheat"]:
+                if manual:
+                    seq = [pay_of[h] for h in o["seq"]]
+                    if o["layout"] == "plain":
+                        # one transaction per kind (HTLC-success and HTLC-timeout cannot share one), or one per HTLC
+                        for kind in ("received", "offered"):
+                            grp = [pay_of[h] for h in o["seq"] if kind_of[h] == kind]
+                            if grp and rng.random() < 0.5:
+                                for g in grp:
+                                    chain.append({"op": "cheat", "pays": [g], "ins": [1], "outs": [1]})
+                            elif grp:
+                                chain.append({"op": "cheat", "pays": grp, "ins": list(range(1, len(grp) + 1)), "outs": list(range(1, len(grp) + 1))})
+                    else:
+                        chain.append({"op": "cheat", "pays": seq, "ins": o["ins"], "outs": o["outs"]})
+                cheated += [p for p in pays if p not in cheated]
                 chain.append({"op": "mine", "who": who, "agent_pays": pays})
             else:
                 chain.append({"op": "mine", "who": [w for w in who if w != 2], "agent_pays": []})
             if o["h"] == 13 and shape:
                 # the model's expiry height: let the same senders through until the real expiry
                 chain.append({"op": "to_expiry", "htlc": 0, "who": [w for w in who if w != 2], "agent_pays": [], "off": 0})
+                depth += 6
+        elif o["op"] == "unwind":
+            # (the model's ANTI_REORG_DELAY is 2, the code's 6: some more blocks on top now and then, as far
+            #  as the library's reorganisation assumption allows)
+            if depth <= 2 and rng.random() < 0.4:
+                k = rng.randrange(1, 4 - depth + 1)
+                chain.append({"op": "mine", "who": "none", "n": k})
+            chain.append({"op": "unwind", "target": o["target"], "extra": o["extra"], "keep": not o["evict"]})
+            r = rng.random()
+            if r < 0.15:
+                chain.append({"op": "rebroadcast", "node": 1 - owner})
+            elif r < 0.3:
+                chain.append({"op": "reload", "node": 1 - owner})
+            depth = 0
+        elif o["op"] == "back":
+            who = sorted(set(o["who"]) | set(base) | ({3} if revoked else {3, owner}))
+            chain.append({"op": "mine", "who": who, "agent_pays": list(cheated)} if revoked else {"op": "mine", "who": who, "prefer": "old"})
+            depth += 1
         elif o["op"] == "preimage":
             chain.append({"op": "preimage", "pay": pay_of[o["hash"]]})
             if rng.random() < 0.15:
@@ -70,7 +123,7 @@ def convert_script(s, rng):
         elif o["op"] == "reload":
             chain.append({"op": "reload", "node": o["node"]})
     chain.append({"op": "settle"})
-    if not revoked and rng.random() < 0.5:
+    if not revoked and rng.random() < 0.5 and not any(o["op"] == "unwind" for o in s["ops"]):
         # a fee-estimator trajectory around the model's blocks: high when the channel goes to chain,
         # collapsing / spiking between the blocks
         est = [rng.choice([1000, 2500, 5000, 20000]), rng.choice([253, 1000, 5000, 20000])]
@@ -84,9 +137,11 @@ def convert_script(s, rng):
                 moved.append({"op": "feerate", "node": n, "v": est[n]})
             moved.append(o)
         chain = moved
-    return {"cfg": {"chan_type": rng.choice(TYPES), "value": 1000000, "push": rng.choice([100000000, 400000000, 500000000]),
-                    "feerate": rng.choice([253, 1000, 2500]), "style": [rng.randrange(11), rng.randrange(11)]},
-            "history": hist, "close": close, "chain": chain}
+    cfg = {"chan_type": rng.choice(TYPES[1:] if manual else TYPES), "value": 1000000, "push": rng.choice([100000000, 400000000, 500000000]),
+           "feerate": rng.choice([253, 1000, 2500]), "style": [rng.randrange(11), rng.randrange(11)]}
+    if manual:
+        cfg["agent_manual"] = True
+    return {"cfg": cfg, "history": hist, "close": close, "chain": chain}
 
 
 # ------------------------------------------------------------------ reading a run back (for attribution)
@@ -128,6 +183,11 @@ class View:
                 self.height = e["h"]
                 self.rewinds.append(e["h"])
                 self.rb = None
+                for t in e.get("unconf", []):
+                    self.conf.pop(t, None)
+                for t in e.get("evicted", []):
+                    if t in self.txs:
+                        self.txs[t]["ok"] = False
             elif k == "preimage":
                 self.known[e["node"]].add(e["hash"])
                 self.late[(e["node"], e["hash"])] = (e["h"], len(self.rewinds))
@@ -154,7 +214,7 @@ class View:
         """Outputs node n has to claim now (C06: as the victim; C07: entitled and mature) that are unspent
         and have no live claim of n."""
         c = self.com
-        if not c:
+        if not c or c["tx"] not in self.conf:
             return []
         res = []
         owner = c["owner"]
@@ -440,6 +500,62 @@ def selftest(pid, wd, tpaths, skip_runs=()):
                     e = dict(e); e["txs"] = [t for t in e["txs"] if t != tx]
                 m.append(e)
             muts.append(("second-stage-unpunished", m))
+    if pid == "C06":
+        # a hand-made second-stage transaction whose numbers of inputs and outputs differ goes unpunished
+        def unpaired(evs):
+            c = confirmed(evs)
+            odd = {e["tx"] for e in evs if e["ev"] == "bcast" and not e["dup"] and e["by"] == 2 and e["tx"] in c
+                   and e["shape"]["ins"] and len(e["shape"]["ins"]) != len(e["shape"]["outs"])}
+            for e in evs:
+                if e["ev"] == "bcast" and not e["dup"] and e["by"] < 2 and any(x[0] in odd for x in e["ins"]):
+                    return e["tx"]
+            return None
+        evs, tx = first_run(unpaired)
+        if evs:
+            m = []
+            for e in evs:
+                if e["ev"] == "bcast" and e["tx"] == tx:
+                    continue
+                if e["ev"] == "block" and tx in e["txs"]:
+                    e = dict(e); e["txs"] = [t for t in e["txs"] if t != tx]
+                m.append(e)
+            muts.append(("unpaired-second-stage-unpunished", m))
+        # the revoked commitment confirms again after a reorganisation in which the network forgot the justice
+        # claims: they are not made again
+        def reissued(evs):
+            com = next((e for e in evs if e["ev"] == "commit"), None)
+            if not com or not com["revoked"]:
+                return None
+            gone = False
+            for i, e in enumerate(evs):
+                if e["ev"] == "rewind" and com["tx"] in e["unconf"] and e["evicted"]:
+                    gone = True
+                elif gone and e["ev"] == "block" and com["tx"] in e["txs"]:
+                    j = i + 1
+                    while j < len(evs) and evs[j]["ev"] != "state":
+                        j += 1
+                    drop = {x["tx"] for x in evs[i:j] if x["ev"] == "bcast" and x["by"] < 2 and not x["dup"]}
+                    big = [r for r in com["outs"] if r["k"] in ("to_local", "offered", "received") and r["amt"] >= ECON]
+                    if drop and big:
+                        return (i, j, drop)
+            return None
+        evs, k = first_run(reissued)
+        if evs:
+            i, j, drop = k
+            m = []
+            for q, e in enumerate(evs):
+                if i <= q < j and e["ev"] == "bcast" and e["tx"] in drop:
+                    continue
+                if q >= j and e["ev"] == "bcast" and e["tx"] in drop and e["dup"]:
+                    continue
+                if e["ev"] == "block" and any(t in drop for t in e["txs"]):
+                    e = dict(e); e["txs"] = [t for t in e["txs"] if t not in drop]
+                m.append(e)
+            muts.append(("claims-not-reissued-after-reconfirmation", m))
+        # binding of the reorganisation record: a transaction that left the chain is not named
+        evs, k = first_run(lambda evs: next((i for i, e in enumerate(evs) if e["ev"] == "rewind" and len(e["unconf"]) >= 1), None))
+        if evs:
+            m = copy.deepcopy(evs); m[k]["unconf"] = m[k]["unconf"][1:]; muts.append(("rewind-unconfirmed-set-wrong", m))
     rejected, names = 0, []
     for name, m in muts:
         p = os.path.join(wd, "selftest-%s.ndjson" % name)
@@ -450,7 +566,7 @@ def selftest(pid, wd, tpaths, skip_runs=()):
             rejected += 1
         else:
             vlib.log("[selftest] corruption %s was NOT rejected" % name)
-    need = 8 if pid == "C07" else 7
+    need = 8 if pid == "C07" else 10
     if len(muts) < need or rejected != len(muts):
         raise vlib.ToolError("binding self-test: %d of %d corrupted traces rejected (%s)" % (rejected, len(muts), names))
     return {"mutations": len(muts), "rejected": rejected, "kinds": names}
@@ -463,8 +579,19 @@ def stats_of(tpath):
           "styles": set(), "blocks": 0, "stale_broadcasts": 0, "bump_requests": 0, "rebump_requests": 0,
           "rebumps_after_estimate_fell_5x": {"close": 0, "htlc": 0}, "runs_with_rebump_after_fall": 0,
           "tip_reorgs": 0, "rebroadcast_requests": 0, "rebroadcast_requests_answered": 0,
-          "justice_reissues_in_last_15_blocks": 0, "claims_raised_on_rebroadcast": 0}
+          "justice_reissues_in_last_15_blocks": 0, "claims_raised_on_rebroadcast": 0,
+          # hand-made second-stage transactions of the cheater that confirmed, by shape
+          "handmade_second_stage_confirmed": 0, "second_stage_inputs_ne_outputs": 0, "second_stage_aggregated": 0,
+          "second_stage_own_input_before_htlc": 0, "second_stage_extra_outputs": 0, "second_stage_timeout_aggregated": 0,
+          # reorganisations that unconfirm transactions of the run
+          "unwinds": 0, "unwinds_of_commitment": 0, "unwinds_forgetting_claims": 0, "unwinds_of_second_stage": 0,
+          "unwinds_of_confirmed_claims": 0, "commitment_reconfirmed": 0, "commitment_reconfirmed_other_height": 0,
+          "claims_after_reconfirmation": 0, "max_unwind_depth": 0,
+          "runs_with_duplicate_hash_htlcs": 0, "late_preimages_for_duplicate_hashes": 0, "competing_commitment_confirmed": 0,
+          "previous_holder_commitment_runs": 0, "late_preimages_on_previous_holder_commitment": 0}
     cur = None
+    dup_hashes, prevh = set(), False
+    shapes, comtx, comh, recommitted, agent_all, victim_claims = {}, None, None, False, set(), set()
     agent, conf = set(), set()
     asked, fell, rbn = {}, False, None
     paid, expiry, delays, rbw = {}, None, [0, 0], None
@@ -482,6 +609,9 @@ def stats_of(tpath):
                 agent, conf = set(), set()
                 asked, fell = {}, False
                 paid, expiry, delays = {}, None, e["delays"]
+                shapes, comtx, comh, recommitted, agent_all, victim_claims = {}, None, None, False, set(), set()
+                dup_hashes, prevh = set(), e["kind"] == "cp_previous" and len(e["live"]) == 2
+                st["previous_holder_commitment_runs"] += 1 if prevh else 0
                 st["types"][e["chan_type"]] = st["types"].get(e["chan_type"], 0) + 1
                 st["kinds"][e["kind"]] = st["kinds"].get(e["kind"], 0) + 1
                 for s in e["styles"]:
@@ -489,11 +619,23 @@ def stats_of(tpath):
             elif e["ev"] == "commit":
                 st["htlc_outputs"] += sum(1 for r in e["outs"] if r["k"] in ("offered", "received"))
                 st["revoked_runs" if e["revoked"] else "honest_runs"] += 1
+                if comtx is not None and comtx != e["tx"]:
+                    st["competing_commitment_confirmed"] += 1
+                comtx, comh = e["tx"], e["h"]
+                hs = [r["hash"] for r in e["outs"] if r["k"] in ("offered", "received")]
+                dup_hashes = {h for h in hs if hs.count(h) > 1}
+                st["runs_with_duplicate_hash_htlcs"] += 1 if dup_hashes else 0
                 if e["revoked"]:
                     expiry = (e["h"] + delays[e["owner"]], [[e["tx"], r["v"]] for r in e["outs"] if r["k"] == "to_local"])
             elif e["ev"] == "bcast" and not e["dup"]:
                 if e["by"] == 2 and e["kind"] != "RevokedCommitment":
                     agent.add(e["tx"])
+                    if e["shape"]["ins"]:
+                        shapes[e["tx"]] = (e["shape"], e["locktime"])
+                if e["by"] < 2 and e["kind"] == "Claim":
+                    victim_claims.add(e["tx"])
+                    if recommitted:
+                        st["claims_after_reconfirmation"] += 1
                 if e["by"] < 2 and e["kind"] == "Claim":
                     st["claims"] += 1
                     if expiry and expiry[0] - 15 <= e["h"] <= expiry[0] and any(x in expiry[1] for x in e["ins"]):
@@ -506,6 +648,14 @@ def stats_of(tpath):
                     st["stale_broadcasts"] += 1
             elif e["ev"] == "rewind":
                 st["tip_reorgs"] += 1
+                if e["unconf"]:
+                    st["unwinds"] += 1
+                    st["max_unwind_depth"] = max(st["max_unwind_depth"], e["from"] - e["h"])
+                    st["unwinds_of_commitment"] += 1 if comtx in e["unconf"] else 0
+                    st["unwinds_forgetting_claims"] += 1 if e["evicted"] else 0
+                    st["unwinds_of_second_stage"] += 1 if any(t in agent for t in e["unconf"]) else 0
+                    st["unwinds_of_confirmed_claims"] += 1 if any(t in victim_claims for t in e["unconf"]) else 0
+                    conf -= set(e["unconf"])
             elif e["ev"] == "rebroadcast":
                 st["rebroadcast_requests"] += 1
                 rbn = e["node"]
@@ -531,8 +681,27 @@ def stats_of(tpath):
                     conf.add(t)
                     if t in agent:
                         st["second_stage_confirmed"] += 1
+                    if t in shapes:
+                        sh, lt = shapes[t]
+                        st["handmade_second_stage_confirmed"] += 1
+                        nh = sum(1 for x in sh["ins"] if x > 0)
+                        st["second_stage_inputs_ne_outputs"] += 1 if len(sh["ins"]) != len(sh["outs"]) else 0
+                        st["second_stage_aggregated"] += 1 if nh >= 2 else 0
+                        st["second_stage_timeout_aggregated"] += 1 if nh >= 2 and lt > 0 else 0
+                        st["second_stage_extra_outputs"] += 1 if len(sh["outs"]) > len(sh["ins"]) else 0
+                        last = max(i for i, x in enumerate(sh["ins"]) if x > 0)
+                        st["second_stage_own_input_before_htlc"] += 1 if any(x == 0 for x in sh["ins"][:last]) else 0
+                if comtx in e["txs"]:
+                    if st.get("_com_run") == st["runs"]:
+                        st["commitment_reconfirmed"] += 1
+                        st["commitment_reconfirmed_other_height"] += 1 if e["h"] != st.get("_com_h") else 0
+                        recommitted = True
+                    st["_com_run"], st["_com_h"] = st["runs"], e["h"]
             elif e["ev"] == "idle":
                 st["blocks"] += e["h"] - e["from"] + 1
+            elif e["ev"] == "preimage":
+                st["late_preimages_for_duplicate_hashes"] += 1 if e["hash"] in dup_hashes else 0
+                st["late_preimages_on_previous_holder_commitment"] += 1 if prevh else 0
             elif e["ev"] == "spendable":
                 st["spendable"] += len(e["outs"])
             elif e["ev"] == "sweep":
@@ -542,6 +711,8 @@ def stats_of(tpath):
     if agent & conf:
         st["runs_with_second_stage"] += 1
     st["styles"] = sorted(st["styles"])
+    for k in [k for k in st if k.startswith("_")]:
+        del st[k]
     return st
 
 
@@ -553,51 +724,72 @@ def run_check(pid, tier, seed, assumptions):
     rng = random.Random(seed)
     prof = "c06" if pid == "C06" else "c07"
 
-    # ---- design check + behaviours
-    cfgs = {("C06", False): ["OnChainMC.cfg"], ("C06", True): ["OnChainMCt.cfg"],
-            ("C07", False): ["OnChainMCh.cfg", "OnChainMCh3.cfg"], ("C07", True): ["OnChainMCht.cfg"]}[(pid, thorough)]
-    mcs, scripts = [], []
-    for cfg in cfgs:
-        r = vlib.tlc_mc(pid, "OnChainMC", cfg, workers=12, timeout=3000 if thorough else 600)
-        if r["violated"]:
-            raise vlib.ToolError("design model violates %s in %s (spec needs correction)" % (r["violated"], cfg))
-        need = ["MReact", "MSpendable", "MSweep", "MCheck", "MBlockFair", "MFinal"] + (["MBal"] if pid == "C07" else []) \
-            + ([] if cfg == "OnChainMCh3.cfg" else ["MReload"])
-        vlib.require_coverage(r, need, cfg)
-        got = vlib.tlc_printed(r["out"], "SCRIPT")
-        if not any(o["op"] == "block" and o["cheat"] for s in got for o in s["ops"]) and pid == "C06":
-            raise vlib.ToolError("vacuity: the model's cheater never confirmed a second-stage transaction")
-        vlib.log("[mc] %s: %d distinct states, %d generated, depth %d, %d scripts, %.0fs" %
-                 (cfg, r["distinct"], r["states"], r["depth"], len(got), r["wall_s"]))
-        scripts += got
-        r.pop("out")
-        mcs.append((cfg, r))
+    # ---- design check + behaviours: (cfg, how many of its behaviours become driver scripts)
+    cfgs = {("C06", False): [("OnChainMC.cfg", 80), ("OnChainMCs.cfg", 60), ("OnChainMCr.cfg", 70)],
+            ("C06", True): [("OnChainMCt.cfg", 700), ("OnChainMCst.cfg", 350), ("OnChainMCrt.cfg", 450)],
+            ("C07", False): [("OnChainMCh.cfg", 60), ("OnChainMCh3.cfg", 60), ("OnChainMChr.cfg", 40), ("OnChainMChd.cfg", 30)],
+            ("C07", True): [("OnChainMCht.cfg", 900), ("OnChainMChrt.cfg", 300), ("OnChainMChdt.cfg", 300)]}[(pid, thorough)]
+    mcs, conv, ntlc = [], [], {}
     # prefer the behaviours in which the environment is active
     def weight(s):
         w = len(s["shape"])
         for o in s["ops"]:
             if o["op"] == "block":
                 w += 2 if o["cheat"] else 0
+                w += 2 if len(o.get("ins", [])) != len(o.get("outs", [])) else 0
+                w += 1 if o.get("layout", "plain") != "plain" else 0
+                w += 2 if o.get("layout", "plain") != "plain" and sum(1 for x in o.get("ins", []) if x > 0) >= 2 else 0
                 # after the expiry only one side's transactions confirm: the races for contended outputs
                 w += 3 if (s["mode"] == "honest" and o["h"] >= 14 and len(o["who"]) == 1) else 0
+            elif o["op"] == "unwind":
+                w += 3 + (1 if o["evict"] else 0)
             else:
                 w += 1
         return w
-    uniq = {json.dumps(s, sort_keys=True): s for s in scripts}
-    scripts = [uniq[k] for k in sorted(uniq)]
-    rng.shuffle(scripts)
-    scripts.sort(key=weight, reverse=True)
-    cap = 1200 if thorough else 140
-    head = scripts[:cap * 2]
-    rng.shuffle(head)
-    conv = [convert_script(s, rng) for s in head[:cap]]
+    for cfg, cap in cfgs:
+        r = vlib.tlc_mc(pid, "OnChainMC", cfg, workers=12, timeout=3000 if thorough else 600)
+        if r["violated"]:
+            raise vlib.ToolError("design model violates %s in %s (spec needs correction)" % (r["violated"], cfg))
+        reorg = cfg.startswith(("OnChainMCr", "OnChainMChr"))
+        need = ["MReact", "MSpendable", "MSweep", "MCheck", "MBlockFair", "MFinal"] + (["MBal"] if pid == "C07" else []) \
+            + (["MReload"] if cfg in ("OnChainMC.cfg", "OnChainMCt.cfg", "OnChainMCh.cfg", "OnChainMCht.cfg", "OnChainMCst.cfg") else []) \
+            + (["MUnwind", "MBlockBack"] if reorg else [])
+        vlib.require_coverage(r, need, cfg)
+        got = vlib.tlc_printed(r["out"], "SCRIPT")
+        if not any(o["op"] == "block" and o["cheat"] for s in got for o in s["ops"]) and pid == "C06":
+            raise vlib.ToolError("vacuity: the model's cheater never confirmed a second-stage transaction")
+        if cfg.startswith("OnChainMCs") and not (any(o["op"] == "block" and len(o["ins"]) != len(o["outs"]) for s in got for o in s["ops"])
+                                                 and any(o["op"] == "block" and o["layout"] == "fee_between" for s in got for o in s["ops"])):
+            raise vlib.ToolError("vacuity: no second-stage transaction with different numbers of inputs and outputs in %s" % cfg)
+        if reorg and not any(o["op"] == "unwind" and o["evict"] and o["target"] == "commit" for s in got for o in s["ops"]):
+            raise vlib.ToolError("vacuity: the commitment is never reorganised out (claims forgotten) in %s" % cfg)
+        vlib.log("[mc] %s: %d distinct states, %d generated, depth %d, %d scripts, %.0fs" %
+                 (cfg, r["distinct"], r["states"], r["depth"], len(got), r["wall_s"]))
+        r.pop("out")
+        mcs.append((cfg, r))
+        uniq = {json.dumps(s, sort_keys=True): s for s in got}
+        scripts = [uniq[k] for k in sorted(uniq)]
+        rng.shuffle(scripts)
+        scripts.sort(key=weight, reverse=True)
+        head = scripts[:cap * 2]
+        rng.shuffle(head)
+        ntlc[cfg] = len(head[:cap])
+        conv += [convert_script(s, rng) for s in head[:cap]]
+    # spec mutants: an ideal monitor with a planted defect must be refuted by the same obligations
+    mutants = []
+    for cfg in ({"C06": ["OnChainMCs_m.cfg", "OnChainMCr_m.cfg"], "C07": ["OnChainMChr_m.cfg", "OnChainMChd_m.cfg"]}[pid]):
+        r = vlib.tlc_mc(pid, "OnChainMC", cfg, workers=12, timeout=600, coverage=False)
+        vlib.log("[mc-mutant] %s: %s" % (cfg, "refuted (%s)" % r["violated"] if r["violated"] else "NOT refuted"))
+        if not r["violated"]:
+            raise vlib.ToolError("spec mutant %s is not refuted: the obligations of OnChain.tla do not notice the planted defect" % cfg)
+        mutants.append({"cfg": cfg, "refuted_by": r["violated"], "distinct": r["distinct"]})
     spaths = []
     for k in range(0, len(conv), 300):
         spaths.append(os.path.join(wd, "scripts.ndjson" if k == 0 else "scripts%d.ndjson" % (k // 300 + 1)))
         _write(spaths[-1], conv[k:k + 300])
 
     # ---- the real code
-    nrand = 6000 if thorough else 330
+    nrand = 5000 if thorough else 250
     # (several moderate batches rather than one large one: after every rejected run -- known findings
     #  included -- the rest of its batch is validated again)
     chunk = 1000 if thorough else nrand
@@ -606,9 +798,18 @@ def run_check(pid, tier, seed, assumptions):
     if pid == "C06":
         # justice claims starved until the cheater's CSV delay has almost run out
         batches += [("race" if k == 0 else "race%d" % (k + 1), ["--random", 100 if thorough else 30, "--profile", "c06t"]) for k in range(3 if thorough else 1)]
+        # hand-made second-stage transactions of every shape; the commitment reorganised out and confirmed again
+        batches += [("shapes" if k == 0 else "shapes%d" % (k + 1), ["--random", 400 if thorough else 50, "--profile", "c06s"]) for k in range(3 if thorough else 1)]
+        batches += [("unwind" if k == 0 else "unwind%d" % (k + 1), ["--random", 400 if thorough else 70, "--profile", "c06r"]) for k in range(3 if thorough else 1)]
     if pid == "C07":
         # late preimages followed by a reorganisation of the tip and rebroadcast requests
         batches += [("reorg" if k == 0 else "reorg%d" % (k + 1), ["--random", 100 if thorough else 40, "--profile", "c07r"]) for k in range(3 if thorough else 1)]
+        # the commitment of an honest close (and the claims on top of it) reorganised out and confirmed again
+        batches += [("unwind" if k == 0 else "unwind%d" % (k + 1), ["--random", 300 if thorough else 40, "--profile", "c07u"]) for k in range(3 if thorough else 1)]
+        # several pending HTLCs with one payment hash; one commitment reorganised out and a competing one confirming instead;
+        # the previous, unrevoked holder commitment of a node under test confirming, the preimage arriving afterwards
+        for name, prof in (("duphash", "c07d"), ("compete", "c07x"), ("prevholder", "c07p")):
+            batches += [(name if k == 0 else "%s%d" % (name, k + 1), ["--random", 200 if thorough else 40, "--profile", prof]) for k in range(3 if thorough else 1)]
     nviol, total_events, total_runs, panics, known_hits = 0, 0, 0, 0, {}
     stats, good_traces, bad_runs = {}, [], {}
     for bi, (bname, args) in enumerate(batches):
@@ -665,10 +866,22 @@ def run_check(pid, tier, seed, assumptions):
     if pid == "C06":
         if allst["revoked_runs"] < 0.9 * allst["runs"] or allst["runs_with_second_stage"] * 6 < allst["runs"]:
             vacuous("vacuity: drivers do not exercise revoked closes with second-stage transactions: %s" % allst)
-        for k in ("justice_reissues_in_last_15_blocks", "claims_raised_on_rebroadcast"):
+        for k in ("justice_reissues_in_last_15_blocks", "claims_raised_on_rebroadcast", "handmade_second_stage_confirmed",
+                  "second_stage_inputs_ne_outputs", "second_stage_aggregated", "second_stage_own_input_before_htlc",
+                  "second_stage_extra_outputs", "second_stage_timeout_aggregated", "unwinds", "unwinds_of_commitment",
+                  "unwinds_forgetting_claims", "unwinds_of_second_stage", "unwinds_of_confirmed_claims", "commitment_reconfirmed",
+                  "commitment_reconfirmed_other_height", "claims_after_reconfirmation"):
             allst[k] = sum(stats[b][k] for b in stats)
+        allst["max_unwind_depth"] = max(stats[b]["max_unwind_depth"] for b in stats)
         if allst["justice_reissues_in_last_15_blocks"] < 60 or allst["claims_raised_on_rebroadcast"] < 5:
             vacuous("vacuity: too few justice claims re-issued near the CSV expiry / raised on a rebroadcast request: %s" % allst)
+        if allst["second_stage_inputs_ne_outputs"] < 30 or allst["second_stage_aggregated"] < 12 or allst["second_stage_own_input_before_htlc"] < 12 \
+                or allst["second_stage_extra_outputs"] < 8:
+            vacuous("vacuity: too few hand-made second-stage transactions of the unusual shapes confirmed: %s" % allst)
+        if allst["unwinds_of_commitment"] < 50 or allst["unwinds_forgetting_claims"] < 30 or allst["commitment_reconfirmed"] < 50 \
+                or allst["commitment_reconfirmed_other_height"] < 15 or allst["unwinds_of_second_stage"] < 8 \
+                or allst["claims_after_reconfirmation"] < 60:
+            vacuous("vacuity: too few reorganisations of the commitment / re-confirmations / claims made again: %s" % allst)
     else:
         if allst["honest_runs"] < 0.9 * allst["runs"] or allst["claims"] < allst["runs"] // 2:
             vacuous("vacuity: drivers do not exercise honest closes with HTLC claims: %s" % allst)
@@ -682,12 +895,24 @@ def run_check(pid, tier, seed, assumptions):
             allst[k] = sum(stats[b][k] for b in stats)
         if allst["tip_reorgs"] < 10 or allst["rebroadcast_requests_answered"] < 20:
             vacuous("vacuity: too few tip reorganisations / answered rebroadcast requests: %s" % allst)
+        for k in ("unwinds", "unwinds_of_commitment", "unwinds_forgetting_claims", "unwinds_of_confirmed_claims", "commitment_reconfirmed",
+                  "commitment_reconfirmed_other_height", "claims_after_reconfirmation"):
+            allst[k] = sum(stats[b][k] for b in stats)
+        if allst["unwinds_of_commitment"] < 25 or allst["commitment_reconfirmed"] < 25 or allst["unwinds_forgetting_claims"] < 8:
+            vacuous("vacuity: too few reorganisations of the commitment / re-confirmations: %s" % allst)
+        for k in ("runs_with_duplicate_hash_htlcs", "late_preimages_for_duplicate_hashes", "competing_commitment_confirmed",
+                  "previous_holder_commitment_runs", "late_preimages_on_previous_holder_commitment"):
+            allst[k] = sum(stats[b][k] for b in stats)
+        if allst["late_preimages_for_duplicate_hashes"] < 15 or allst["competing_commitment_confirmed"] < 20 \
+                or allst["late_preimages_on_previous_holder_commitment"] < 15:
+            vacuous("vacuity: too few late preimages for duplicate hashes / competing commitments / late preimages on a previous "
+                    "holder commitment: %s" % allst)
     if allst["spendable"] < allst["runs"] or allst["sweeps"] < allst["runs"] or allst["reloads"] == 0:
         vacuous("vacuity: too few SpendableOutputs / sweeps / reloads: %s" % allst)
 
     st = None
     if nviol == 0:
-        st = selftest(pid, wd, [(b, os.path.join(wd, "trace-%s.ndjson" % b)) for b in ("random", "race") if b in stats], bad_runs)
+        st = selftest(pid, wd, [(b, os.path.join(wd, "trace-%s.ndjson" % b)) for b in ("random", "race", "shapes", "unwind") if b in stats], bad_runs)
         vlib.log("[selftest] %s" % st)
 
     samples = conv[:2]
@@ -698,7 +923,8 @@ def run_check(pid, tier, seed, assumptions):
         "traces_validated_against_impl": total_runs, "samples": samples,
         "mc_runs": [{"cfg": c, "distinct": r["distinct"], "generated": r["states"], "depth": r["depth"],
                      "action_coverage": {k: v for k, v in r["coverage"].items() if k.startswith("M")}, "wall_s": round(r["wall_s"], 1)} for c, r in mcs],
-        "scripts_from_tlc": len(conv), "random_scripts": nrand, "events_validated": total_events,
+        "scripts_from_tlc": len(conv), "scripts_from_tlc_by_cfg": ntlc, "spec_mutants": mutants,
+        "random_scripts": sum(int(a[1]) for _, a in batches if a[0] == "--random"), "events_validated": total_events,
         "driver_stats": {b: stats[b] for b in stats}, "impl_panics": panics, "known_finding_hits": known_hits,
         "binding_selftest": st, "exhaustive": False,
     }
@@ -713,9 +939,7 @@ COMMON_ASSUMPTIONS = [
     "(no minimum relay fee, no RBF rules, no package limits): any valid final transaction can be mined when the script says so",
     "fee estimator and wallet are the test doubles of functional_test_utils (constant feerate changed by the script; "
     "four 1 BTC wallet UTXOs per node for anchor bumping)",
-    "reorganisations only of the newest blocks above every confirmed transaction of the run and not below an HTLC expiry already "
-    "reached (nothing confirmed is ever unconfirmed; C11 covers the rest); channel value 1,000,000 sat; to_self_delay 144; "
-    "histories of at most 6 updates",
+    "channel value 1,000,000 sat; to_self_delay 144; histories of at most 6 updates",
     "BumpTransactionEvents are handled at once by the wallet-backed BumpTransactionEventHandler of functional_test_utils; the "
     "monotonicity of externally funded claims is judged on the feerate the monitor requests (per claim id), that of the "
     "monitor's own transactions on the package feerate of the replacements",
